@@ -197,7 +197,7 @@ void h_win_put_step(void) {
     setup(&t, &name, &val);
     /* window: 0 root, 1/2 children (real), 3..6 grandchildren (summaries 0..3); presence symbolic */
     /* case split into independent queries (per-instance constants): presence of the two children, colour of the node,
-     * side of the operation key; the registry enumerates all 2*2*2*3 combinations */
+     * side of the operation key; the registry enumerates every combination that admits a valid window (a lone right child, a red node with a red child etc. are not LLRB) */
 #ifndef WP1
 #define WP1 nondet_bool()
 #define WP2 nondet_bool()
@@ -208,6 +208,10 @@ void h_win_put_step(void) {
     gh_n[0]->red = WRED;
     gh_n[1] = WP1 ? mk_real() : NULL;
     gh_n[2] = WP2 ? mk_real() : NULL;
+#ifdef WC1
+    if (gh_n[1]) gh_n[1]->red = WC1;      /* colours of the children: per-instance constants as well */
+    if (gh_n[2]) gh_n[2]->red = WC2;
+#endif
     { int dir = WDIR; int k0_ = KEY(gh_n[0]); QV_ASSUME(dir == 0 ? gh_K < k0_ : dir == 1 ? gh_K == k0_ : gh_K > k0_); }
     for (int i = 3; i <= 6; i++) gh_n[i] = (gh_n[(i - 1) / 2] != NULL && nondet_bool()) ? mk_summary(i - 3) : NULL;
     gh_n[0]->left = gh_n[1]; gh_n[0]->right = gh_n[2];
